@@ -1,4 +1,5 @@
 """C15 - results do not depend on what the library object did before."""
+import os
 import vlib
 import molgen
 import gen
@@ -15,6 +16,7 @@ MOLS = {'BensonGA': ['CC', 'CCO', 'CCCCCC', 'C1CO1', 'CC(C)C', 'C=CC', 'c1ccccc1
 
 
 UQ_LIBS = ('GRWSurface2018',)
+TAGLIB = os.path.join(vlib.WORK, 'c15_taglib', 'library.yaml')
 PROPS = ['cp', 'h', 's', 'g', 's', 'g']
 
 
@@ -126,6 +128,31 @@ def gen_history(rng, n, kind='random'):
         ops.append({'op': 'merge', 'obj': 'M', 'src': 'N'})
         ops.append({'op': 'fingerprint', 'obj': 'M'})
         return ops, objs
+    if kind == 'tagtype':
+        # a user-defined property-set type registered AFTER other libraries were loaded and used, then a library carrying such data
+        lib = rng.choice(LIBS)
+        load('L', lib)
+        dec('L', rng.choice(MOLS[lib]))
+        objs['T'] = 'BensonGA'
+        ops.append({'op': 'tagload', 'obj': 'T', 'path': TAGLIB})
+        ops.append({'op': 'fingerprint', 'obj': 'T'})
+        return ops, objs
+    if kind == 'sharedscheme':
+        # two library objects carrying one scheme object: a decomposition through the sibling between decomposing and estimating
+        load('A', 'BensonGA')
+        objs['B'] = 'BensonGA'
+        ops.append({'op': 'share', 'obj': 'B', 'of': 'A'})
+        a, b = rng.sample(['CC', 'CCO', 'CCC', 'C=C', 'CCCCO'], 2)
+        dec('A', a)
+        dec('B', b)
+        ops.append({'op': 'estimate', 'obj': 'A', 'smiles': a, 'eid': 0})
+        for pr in ('s', 'g'):
+            ops.append({'op': 'evalest', 'obj': 'A', 'smiles': a, 'eid': 0, 'prop': pr, 'T': 400.0, 'elements': True})
+        dec('A', a)
+        dec('B', b)
+        ev('A', a, 's')
+        ops[-1]['elements'] = True
+        return ops, objs
     if kind == 'handbuilt':
         # libraries put together by hand (empty, then merged into) next to each other in one process: what one receives
         # - uncertainty data included - is not seen by the others
@@ -210,6 +237,10 @@ def recipes(ops):
     for o in ops:
         if o['op'] in ('load', 'new'):
             rec[o['obj']] = (o['op'], o['lib'])
+        elif o['op'] == 'tagload':
+            rec[o['obj']] = ('tagload', o['path'])
+        elif o['op'] == 'share':
+            rec[o['obj']] = ('share', rec[o['of']])
         elif o['op'] == 'merge':
             rec[o['obj']] = ('merge', rec[o['obj']], rec[o['src']])
         out.append(rec[o['obj']])
@@ -221,6 +252,17 @@ def flatten(tree, ops, names):
         name = 'r%d' % len(names)
         names.append(name)
         ops.append({'op': tree[0], 'obj': name, 'lib': tree[1]})
+        return name
+    if tree[0] == 'tagload':
+        name = 'r%d' % len(names)
+        names.append(name)
+        ops.append({'op': 'tagload', 'obj': name, 'path': tree[1]})
+        return name
+    if tree[0] == 'share':
+        a_ = flatten(tree[1], ops, names)
+        name = 'r%d' % len(names)
+        names.append(name)
+        ops.append({'op': 'share', 'obj': name, 'of': a_})
         return name
     d = flatten(tree[1], ops, names)
     s_ = flatten(tree[2], ops, names)
@@ -285,6 +327,12 @@ def run(ctx):
     hs += [gen_history(rng, 0, 'nodata') for _ in range(ctx.n(2, 12))]
     hs += [gen_history(rng, 0, 'handbuilt') for _ in range(ctx.n(1, 6))]
     hs += [gen_history(rng, 0, 'smemo') for _ in range(ctx.n(2, 12))]
+    os.makedirs(os.path.dirname(TAGLIB), exist_ok=True)
+    open(os.path.join(os.path.dirname(TAGLIB), 'scheme.yaml'), 'w').write('patterns: []\n')
+    open(TAGLIB, 'w').write("groups:\n  'C(C)(H)3':\n    'thermochem':\n      T_ref: 298.15 K\n      ND_H_ref: -4.0\n      ND_S_ref: 15.0\n"
+                            "      ND_Cp_data:\n        - [300 K, 3.0]\n        - [600 K, 5.0]\n      range: [200 K, 1000 K]\n    'tag':\n      value: 7.5\n")
+    hs += [gen_history(rng, 0, 'tagtype') for _ in range(ctx.n(1, 4))]
+    hs += [gen_history(rng, 0, 'sharedscheme') for _ in range(ctx.n(2, 8))]
     with ThreadPoolExecutor(vlib.NCPU) as ex:
         runs = list(ex.map(lambda h: vlib.run_impl('history', {'cases': [{'ops': h[0]}]}, timeout=900), hs))
     # the single-operation references, each in a fresh process
